@@ -20,7 +20,9 @@ func init() {
 // <filesize>; then runs the real Verify.
 func c15run(line string) (string, []string) {
 	t := newToks(line)
-	t.s()
+	if k := t.s(); k == "written" {
+		return c15written(t)
+	}
 	expect := t.s()
 	fsize := t.n()
 	depth, fan, gzipped, pad := t.n(), t.n(), t.n() == 1, t.n()
@@ -86,10 +88,109 @@ func c15geom(es []Ent, dl uint64, depth, fan int, gzipped bool, pad int) Hdr {
 	return a.H
 }
 
+// case: written <cluster|convert> <dedup> <n> (<tile id> <content index>)*  -> ok | err
+// A consistent input (tiles with contents from a small pool, so that runs form and may cross zoom boundaries, incl. at the very
+// end) is written by the real Cluster or Convert; the property says Verify accepts what they write.
+func c15written(t *toks) (string, []string) {
+	writer, dedup, n := t.s(), t.n() == 1, t.n()
+	pool := [][]byte{[]byte("ocean-ocean"), []byte("land"), []byte("coast-line-x")}
+	var tiles []tileKV
+	for i := 0; i < n; i++ {
+		id, c := t.u(), t.n()
+		tiles = append(tiles, tileKV{id, pool[c%len(pool)]})
+	}
+	dir, _ := os.MkdirTemp("", "vh-c15w")
+	defer os.RemoveAll(dir)
+	p := filepath.Join(dir, "a.pmtiles")
+	var err error
+	if writer == "cluster" {
+		// an unclustered, non-deduplicated, consistent input: contents in reverse order
+		var es []Ent
+		var data []byte
+		for i := len(tiles) - 1; i >= 0; i-- {
+			es = append([]Ent{{ID: tiles[i].id, Off: uint64(len(data)), Len: uint32(len(tiles[i].data)), Run: 1}}, es...)
+			data = append(data, tiles[i].data...)
+		}
+		zmin, _, _ := pmtiles.IDToZxy(es[0].ID)
+		zmax, _, _ := pmtiles.IDToZxy(es[len(es)-1].ID)
+		a := buildArchive(&rng{s: 3}, es, data, archOpts{tree: treeOpts{depth: 0, fan: 4, gzip: true, shorthand: true}, tileType: 1, tileComp: 2, meta: "{}", minZoom: zmin, maxZoom: zmax})
+		a.H.CenterZoom = zmin
+		copy(a.Bytes, specEncodeHeader(a.H))
+		os.WriteFile(p, a.Bytes, 0o644)
+		restore := silence()
+		if verr := pmtiles.Verify(quietLogger, p); verr != nil {
+			restore()
+			return "harness", []string{"harness: the input archive is not consistent: " + verr.Error()}
+		}
+		err = pmtiles.Cluster(quietLogger, p, dedup)
+		restore()
+	} else {
+		var rows []mbRow
+		for _, tl := range tiles {
+			z, x, y := pmtiles.IDToZxy(tl.id)
+			rows = append(rows, mbRow{z, x, (uint32(1) << z) - 1 - y, tl.data})
+		}
+		in := filepath.Join(dir, "in.mbtiles")
+		if werr := writeMBTiles(in, []metaRow{{k: "format", v: "png"}}, rows); werr != nil {
+			return "harness", []string{"harness: " + werr.Error()}
+		}
+		tmp, _ := os.CreateTemp(dir, "tmp")
+		defer tmp.Close()
+		restore := silence()
+		err = pmtiles.Convert(quietLogger, in, p, dedup, tmp)
+		restore()
+	}
+	if err != nil {
+		return "err", []string{writer + " failed on a consistent input: " + err.Error()}
+	}
+	restore := silence()
+	verr := pmtiles.Verify(quietLogger, p)
+	restore()
+	if verr != nil {
+		return "err", []string{"verify rejects an archive written by " + writer + " from a consistent input: " + verr.Error()}
+	}
+	return "ok", nil
+}
+
 func c15(r *rng, tier string, o *out) {
 	n := 60
 	if tier == "thorough" {
 		n = 1500
+	}
+	for c := 0; c < n/2; c++ {
+		// tiles around a zoom boundary: the Hilbert end of zoom z and the start of zoom z+1
+		z := uint(r.intn(5))
+		end := hilBase(z + 1) // first id of zoom z+1
+		var ids []uint64
+		lo := end - uint64(1+r.intn(3))
+		if lo > end {
+			lo = 0
+		}
+		if r.chance(50) && lo > 2 {
+			ids = append(ids, uint64(r.intn(int(lo)-1)))
+		}
+		for id := lo; id < end+uint64(1+r.intn(3)); id++ {
+			ids = append(ids, id)
+		}
+		var sb []string
+		same := r.intn(3)
+		for i, id := range ids {
+			ci := same
+			if i == 0 && len(ids) > 3 || r.chance(15) {
+				ci = r.intn(3)
+			}
+			sb = append(sb, fmt.Sprintf("%d %d", id, ci))
+		}
+		if r.chance(30) { // something different after the run
+			sb = append(sb, fmt.Sprintf("%d %d", ids[len(ids)-1]+1+uint64(r.intn(3)), (same+1)%3))
+		}
+		line := fmt.Sprintf("written %s %d %d %s", []string{"cluster", "convert"}[r.intn(2)], r.intn(2), len(sb), joinStr(sb))
+		impl, viol := runCase("C15", line)
+		idx := o.emit(line, impl, true)
+		o.count("written_then_verified")
+		for _, v := range viol {
+			o.violation(idx, v)
+		}
 	}
 	emit := func(expect string, fsize uint64, depth, fan int, gz bool, pad int, h Hdr, es []Ent, tag string) {
 		line := fmt.Sprintf("verify %s %d %d %d %d %d %s %s", expect, fsize, depth, fan, b2i(gz), pad, hdrStr(h), entsStr(es))
@@ -227,3 +328,14 @@ func offUsed(es []Ent, o uint64) bool {
 	return false
 }
 func firstUse(es []Ent, i int) bool { return !offUsed(es[:i], es[i].Off) }
+
+func joinStr(v []string) string {
+	out := ""
+	for i, x := range v {
+		if i > 0 {
+			out += " "
+		}
+		out += x
+	}
+	return out
+}
